@@ -91,6 +91,25 @@ _def_end = Contract(
              'implies(self._name.tree_name is not None, result is not None and '
              'self._name.tree_name.end_pos <= result)'],
 )
+def _replay_line_code(inp):
+    from pyvc.replay import run_real
+    from jedi.api import classes
+
+    class RC:
+        code_lines = list(inp['lines'])
+
+    class NM:
+        is_value_name = True
+        start_pos = (inp['line'], inp.get('col', 0))
+
+        def get_root_context(self):
+            return RC()
+    bn = classes.BaseName.__new__(classes.BaseName)
+    bn._name = NM()
+    out = run_real(lambda: bn.get_line_code(inp['before'], inp['after']))
+    return {'self': bn, 'before': inp['before'], 'after': inp['after']}, out
+
+
 _line_code = Contract(
     id='C17.get_line_code', prop='C17',
     clause='get_line_code() returns the line the name is on (and the requested window around it)',
@@ -109,6 +128,11 @@ _line_code = Contract(
         'and before == 0 and after == 0, '
         'result == self._name.get_root_context().code_lines[self._name.start_pos[0] - 1])',
     ],
+    witness={'lines': 'self._name.get_root_context().code_lines', 'line': 'self._name.start_pos[0]',
+             'before': 'before', 'after': 'after'},
+    replay=_replay_line_code,
+    witness_library=[{'lines': ['a\n', 'b\n', 'c\n', 'd'], 'line': ln, 'before': b, 'after': a}
+                     for ln in (1, 2, 4) for b in (0, 1, 3) for a in (0, 1, 2)],
 )
 _def_ref = Contract(
     id='C17.get_module_names.def_ref_filter', prop='C17',
